@@ -393,11 +393,22 @@ def resolvable(grp, key):
         return None
 
 
-def tree_of(grp):
+class OutsideModel(Exception):
+    """The file has no abstraction: an object of the wrong HDF5 kind for its
+    feature, or groups that do not form a tree (hard-link cycle)."""
+
+
+def _addr(obj):
+    import h5py
+    return h5py.h5o.get_info(obj.id).addr
+
+
+def tree_of(grp, seen=None):
     """The objects of a group as Coq term (Model.C13.h5obj); external links
     are not followed."""
     import h5py
     out = []
+    seen = (seen or frozenset()) | {_addr(grp)}
     for key in grp:
         link = grp.get(key, getlink=True)
         if isinstance(link, h5py.ExternalLink):
@@ -409,7 +420,9 @@ def tree_of(grp):
                 common.blit(bool(obj.is_virtual)),
                 common.blit(bool(obj.external))))
         elif isinstance(obj, h5py.Group):
-            out.append("H5Group %s" % tree_of(obj))
+            if _addr(obj) in seen:
+                raise OutsideModel("hard-link cycle at %s/%s" % (grp.name, key))
+            out.append("H5Group %s" % tree_of(obj, seen))
         else:       # dangling soft link, named datatype: no data
             out.append("H5Group []")
     return "[" + "; ".join("(%s)" % o for o in out) + "]"
@@ -451,7 +464,8 @@ def abstract(h5):
               for i in (1, 2, 3) if "fluorescence:laser %d power" % i in attrs]
     polykeys = sorted(a for a in attrs if a.startswith("online_filter:")
                       and a.endswith("polygon points"))
-    polys = [list(np.array(attrs[a]).shape) for a in polykeys]
+    polys = [(list(np.array(attrs[a]).shape) + [-1, -1])[:2]
+             for a in polykeys]
 
     events = h5["events"] if "events" in h5 else {}
     names = sorted(events.keys())
@@ -468,12 +482,20 @@ def abstract(h5):
             # a link without target is invisible to the reader
             continue
         r = rank[nm]
+        is_group = isinstance(obj, h5py.Group)
+        if is_group != (nm in ("trace", "contour")) or (
+                nm == "contour" and len(obj) == 0):
+            raise OutsideModel("feature %s stored as %s" % (
+                nm, "group" if is_group else "dataset"))
         if nm == "trace":
             for t in obj:
                 tr = resolvable(obj, t)
                 if tr is not None:
-                    traces.append([TRACES.index(t), int(tr.shape[0]),
-                                   dims(tr.shape, 1)])
+                    if not isinstance(tr, h5py.Dataset):
+                        raise OutsideModel("trace %s is a group" % t)
+                    # samples of one event: trace[key][0].size
+                    width = int(np.prod(tr.shape[1:])) if tr.ndim > 1 else -1
+                    traces.append([TRACES.index(t), int(tr.shape[0]), width])
         elif nm in IMG_KINDS:
             feats.append([r, 1, IMG_KINDS.index(nm), int(obj.shape[0]),
                           dims(obj.shape, 1), dims(obj.shape, 2)])
@@ -622,8 +644,15 @@ def run_impl(path):
     import h5py
     import hdf5plugin  # noqa: F401
     from dclab.rtdc_dataset.check import IntegrityChecker, check_dataset
-    with h5py.File(path, "r") as h5:
-        case, info = abstract(h5)
+    try:
+        with h5py.File(path, "r") as h5:
+            case, info = abstract(h5)
+    except OutsideModel as e:
+        # no abstraction: the checker may raise (documented), nothing is
+        # compared
+        return [[-2, 0, 0]], "outside the model: %s" % e, None, dict(
+            nalert=0, exit=cli_exit_status(path), has_flmax=False,
+            outside=str(e))
     try:
         with IntegrityChecker(path) as ic:
             cues = ic.check(expand_section=False)
@@ -826,6 +855,15 @@ def corruption_menu(h5, info):
         if k in ev:
             menu += [("img_rank", dict(f=k, rank=r)) for r in (2, 4)]
     menu.append(("all_empty", {}))
+    # invalid event counts
+    menu += [("evcount", dict(v=v)) for v in (-1, -max(n, 2))]
+    if "trace" in ev:
+        for t in ev["trace"]:
+            menu += [("trace_rank", dict(t=t, rank=r)) for r in (1, 3)]
+    # files without abstraction (the checker may raise): wrong object kinds,
+    # a cycle of hard links
+    menu += [("outside", dict(mode=m)) for m in
+             ("scalar_group", "trace_dataset", "mask_group", "link_cycle")]
     menu.append(("imaging_unknown_key", {}))
     menu += [("retype", dict(key=k, typ=t)) for k, t in (
         ("imaging:frame rate", "str"), ("experiment:event count", "float"),
@@ -840,7 +878,8 @@ def corruption_menu(h5, info):
                           ("setup", "channel width"), ("setup", "flow rate"))
              for v in (0, -96, -1)]
     menu += [("poly", dict(rows=r, cols=c)) for r, c in
-             ((2, 2), (4, 3), (3, 2), (1, 1))]
+             ((2, 2), (4, 3), (3, 2), (1, 1), (3, 1), (6, 1), (6, 0), (2, 3),
+              (8, 2))]
     for m in ev:
         if m.startswith("ml_score_"):
             menu += [("ml_bad", dict(f=m, v=v)) for v in (2.0, -0.5)]
@@ -975,10 +1014,6 @@ def _apply_corruption(h5, kind, p, info, scratch):
         at["imaging:exposure time"] = 20.0
         return []
     if kind == "retype":
-        if p["key"] == "experiment:event count" and "contour" in ev:
-            # the reader hands the raw attribute to the contour wrapper: a
-            # float-typed count makes it raise (type normalisation: C11)
-            return []
         v = at[p["key"]]
         if isinstance(v, (bytes, str, np.ndarray)):
             return []
@@ -1041,6 +1076,9 @@ def _apply_corruption(h5, kind, p, info, scratch):
         return [[3, 0, 0]] if (start == 0 and nn > 0) else []
     if kind == "evcount":
         at["experiment:event count"] = p["v"]
+        if p["v"] < 0:
+            # an invalid count is reported as such
+            return [[6, tab.index(("experiment", "event count")), 0]]
         # every stored feature now has a wrong length
         return [("anycat", 4)]
     if kind == "roi":
@@ -1197,10 +1235,44 @@ def _apply_corruption(h5, kind, p, info, scratch):
     if kind == "nonpos":
         at["%s:%s" % (p["sec"], p["key"])] = p["v"] / 64
         return [[6, tab.index((p["sec"], p["key"])), 0]]
+    if kind == "trace_rank":
+        d0 = ev["trace"][p["t"]][:]
+        if d0.ndim != 2:
+            return []
+        d0 = d0[:, 0] if p["rank"] == 1 else np.stack([d0, d0], axis=-1)
+        _replace(ev["trace"], p["t"], d0)
+        if "fluorescence:samples per event" in at and d0.shape[0] > 0 \
+                and p["rank"] == 3:
+            # twice as many samples in every event
+            return [("fl", [6, 23, TRACES.index(p["t"])])]
+        return []
+    if kind == "outside":
+        nn = int(n) if n is not None else 3
+        if p["mode"] == "scalar_group":
+            if "userdef8" in ev:
+                return []
+            ev.create_group("userdef8").create_dataset("x", data=np.zeros(nn))
+        elif p["mode"] == "trace_dataset":
+            if "trace" in ev:
+                del ev["trace"]
+            ev.create_dataset("trace", data=np.zeros((nn, 4)))
+        elif p["mode"] == "mask_group":
+            if "mask" in ev:
+                del ev["mask"]
+            ev.create_group("mask")
+        else:
+            g = h5.require_group("logs")
+            if "loop" not in g:
+                g["loop"] = g          # hard link to an ancestor
+        return []
     if kind == "poly":
         key = "online_filter:size_x,deform polygon points"
-        at[key] = np.arange(p["rows"] * p["cols"], dtype=float).reshape(
-            p["rows"], p["cols"])
+        if p["cols"] == 0:
+            # one-dimensional
+            at[key] = np.arange(p["rows"], dtype=float)
+        else:
+            at[key] = np.arange(p["rows"] * p["cols"], dtype=float).reshape(
+                p["rows"], p["cols"])
         bad = p["cols"] != 2 or p["rows"] < 3
         return [("anycatkey", 6, 100)] if bad else []
     if kind == "ml_bad":
@@ -1316,16 +1388,31 @@ def _make_path_file(case, d):
         src_abs = abstract(h5)[0]
         src_names = [nm for nm in h5["events"]]
 
-    def derive(outpath, merged_n=None):
-        """parameters of Model.derive_model for the file that was produced"""
-        with h5py.File(outpath, "r") as h5:
-            o_abs = abstract(h5)[0]
-        src_ranks = set(f[0] for f in src_abs["feats"])
-        keep = [f[0] for f in o_abs["feats"] if f[0] in src_ranks]
-        new = [f for f in o_abs["feats"] if f[0] not in src_ranks]
-        n = o_abs["sc"][0][0] if o_abs["sc"][0] else 0
-        return dict(src=src_abs, keep=keep, keep_trace=bool(o_abs["traces"]),
-                    extra=new, n=n)
+    import dclab.definitions as dfn
+    src_feat_names = [nm for nm in src_names
+                      if dfn.feature_exists(nm) and nm != "trace"]
+    n_src = rec["n"]
+
+    def derive(keep_names, keep_trace, n, extra_names=(), outpath=None):
+        """parameters of Model.derive_model computed from the source and the
+        request (not from the file that was produced); only for dclab-condense
+        the added ancillary features are read from the output (`outpath`)"""
+        keep = [rank_of(nm) for nm in keep_names if nm in src_feat_names]
+        extra = []
+        for nm in extra_names:
+            if nm == "index":
+                extra.append([rank_of(nm), 2, 0, 0, 0] + list(range(1, n + 1)))
+            else:
+                extra.append([rank_of(nm), 0, n])
+        if outpath is not None:
+            with h5py.File(outpath, "r") as h5:
+                o_abs = abstract(h5)[0]
+            have = set(keep) | set(e[0] for e in extra)
+            extra += [f for f in o_abs["feats"] if f[0] not in have
+                      and f[0] not in set(rank_of(x) for x in src_feat_names)]
+        return dict(src=src_abs, keep=keep,
+                    keep_trace=bool(keep_trace and "trace" in src_names),
+                    extra=sorted(extra), n=n)
     if kind == "append":
         # a second writer session adds the remaining events and a feature
         from dclab.rtdc_dataset.writer import RTDCWriter
@@ -1337,6 +1424,8 @@ def _make_path_file(case, d):
             for feat, data in feats.items():
                 hw.store_feature(feat, fslice(data, case["n1"], rec["n"]))
             hw.store_feature("userdef0", np.arange(rec["n"]) / 8)
+            hw.h5file.flush()
+            extra["pre"] = abstract(hw.h5file)[0]
         return out, extra
     if kind == "export":
         with dclab.new_dataset(src) as ds:
@@ -1355,14 +1444,14 @@ def _make_path_file(case, d):
             ds.export.hdf5(out, features=keep, filtered=bool(case.get("drop")),
                            basins=bool(case.get("basins")), override=True)
             extra["kept"] = keep
-        extra["derive"] = derive(out)
-        # what was asked for is what is stored
-        got = set(extra["derive"]["keep"]) | set(
-            f[0] for f in extra["derive"]["extra"])
-        want = set(rank_of(k) for k in keep if k != "trace")
-        if got != want or extra["derive"]["keep_trace"] != (
-                "trace" in keep and "trace" in src_names):
-            raise ValueError("export stored other features than requested")
+            nsel = int(ds.filter.all.sum()) if case.get("drop") else n_src
+        ex = []
+        if "index" in keep and "index" not in src_names:
+            ex.append("index")
+        if case.get("basins") and case.get("drop"):
+            # the mapping of the exported events to the source (mapped basin)
+            ex.append("basinmap0")
+        extra["derive"] = derive(keep, "trace" in keep, nsel, ex)
         return out, extra
     with _quiet():
         if kind == "compress":
@@ -1390,8 +1479,18 @@ def _make_path_file(case, d):
             cli.join(paths_in=[src, src2], path_out=out)
         else:
             raise ValueError(kind)
-    if kind in ("split", "join", "condense"):
-        extra["derive"] = derive(out)
+    if kind == "split":
+        se = case["split_events"]
+        idx = case["pick"] % len(paths)
+        extra["derive"] = derive(src_feat_names, True,
+                                 min(se, n_src - idx * se), ["basinmap0"])
+    elif kind == "join":
+        extra["derive"] = derive(src_feat_names, True,
+                                 n_src + case.get("n2", n_src))
+    elif kind == "condense":
+        extra["derive"] = derive(
+            [nm for nm in src_feat_names if dfn.scalar_feature_exists(nm)],
+            False, n_src, outpath=out)
     return out, extra
 
 
@@ -1487,6 +1586,8 @@ def eval_case(args):
                          tb=traceback.format_exc()[-1500:])]
         # --- clean file: first sentence of the property
         ids, msgs, cabs, info = run_impl(path)
+        if extra.get("kept"):
+            case = dict(case, kept_names=list(extra["kept"]))
         rec = dict(kind="clean", case=dict(case, corruptions=[]),
                    abs=render(cabs), ids=ids, fails=[], nontrivial=True,
                    path_kind=case["path"], exit=info["exit"],
@@ -1506,14 +1607,15 @@ def eval_case(args):
             rec["fails"].append(dict(
                 desc="file written by %s is reported with violations: %s" %
                      (case["path"], msgs), finding=fid, tag="clean"))
-        if case["path"] == "writer" and extra.get("pre") is not None:
+        if case["path"] in ("writer", "append") and \
+                extra.get("pre") is not None:
             # writer's metadata completion vs Model.rectify
             sc = cabs["sc"]
 
             def o(x):
                 return [1, x[0]] if x else [0, 0]
             rec["writer"] = dict(abs=render(extra["pre"]),
-                                 impl=flat_of(cabs))
+                                 impl=flat_of(cabs), n=case["recipe"]["n"])
         if extra.get("derive"):
             # export / split / join / condense: the file as predicted by
             # Model.derive_model from the abstraction of the source
@@ -1538,7 +1640,10 @@ def eval_case(args):
             steps = len(fixed_list) if fixed_list else ncorr
             for s in range(steps):
                 with h5py.File(cpath, "a") as h5:
-                    _, inf0 = abstract(h5)
+                    try:
+                        _, inf0 = abstract(h5)
+                    except OutsideModel:
+                        break
                     if fixed_list:
                         kind, p = fixed_list[s]
                     else:
@@ -1553,6 +1658,13 @@ def eval_case(args):
                     applied.append([kind, p])
                     expected.append((s, kind, exp))
             ids2, msgs2, cabs2, info2 = run_impl(cpath)
+            if ids2 == [[-2, 0, 0]]:
+                # no abstraction (wrong object kind, link cycle): documented
+                # as outside the property; only counted
+                recs.append(dict(kind="outside", what=info2["outside"],
+                                 exit=info2["exit"],
+                                 case=dict(case, corruptions=applied)))
+                return recs
             crec = dict(kind="corrupt", case=dict(case, corruptions=applied,
                                                   ncorr=len(applied)),
                         abs=render(cabs2), ids=ids2, fails=[],
@@ -1603,8 +1715,20 @@ def eval_case(args):
                     with _quiet():
                         getattr(cli, tool)(path_in=cur, path_out=cp)
                 except BaseException as e:
+                    # tolerated: links without target cannot be copied; the
+                    # writer's completion reads image[0].shape /
+                    # trace.shape[1] (ranks other than 3 / 2 are outside
+                    # the model of rectify)
+                    with h5py.File(cur, "r") as h5:
+                        ac = abstract(h5)[0]
+                        dang = _has_dangling(h5)
+                    odd = any(ft[1] == 1 and -1 in ft[4:6]
+                              for ft in ac["feats"]) or any(
+                        t[2] == -1 for t in ac["traces"]) or _odd_trace(cur)
                     recs.append(dict(kind="copy-skipped", tool=tool,
-                                     error=e.__class__.__name__))
+                                     error=e.__class__.__name__,
+                                     tolerated=bool(dang or odd),
+                                     case=dict(recs[-1]["case"], copy=tool)))
                     continue
                 try:
                     va = check_dataset(cur)[0]
@@ -1620,7 +1744,8 @@ def eval_case(args):
                     # brands the copy with a version it refuses to re-open
                     # (the corruption removed setup:software version)
                     recs.append(dict(kind="copy-skipped", tool=tool,
-                                     error="OldFormatNotSupportedError"))
+                                     error="OldFormatNotSupportedError",
+                                     tolerated=True))
                     continue
                 with h5py.File(cur, "r") as h5:
                     a0 = abstract(h5)[0]
@@ -1664,6 +1789,29 @@ def eval_case(args):
     return recs
 
 
+def _has_dangling(grp):
+    import h5py
+    for key in grp:
+        if isinstance(grp.get(key, getlink=True), h5py.ExternalLink):
+            if resolvable(grp, key) is None:
+                return True
+        else:
+            obj = resolvable(grp, key)
+            if isinstance(obj, h5py.Group) and obj.name.count("/") < 4 \
+                    and _has_dangling(obj):
+                return True
+    return False
+
+
+def _odd_trace(path):
+    import h5py
+    with h5py.File(path, "r") as h5:
+        tr = resolvable(h5["events"], "trace") if "events" in h5 else None
+        if isinstance(tr, h5py.Group):
+            return any(getattr(resolvable(tr, t), "ndim", 2) != 2 for t in tr)
+    return False
+
+
 def safe_eval_case(args):
     try:
         return eval_case(args)
@@ -1692,6 +1840,8 @@ def _object_of(c):
         return "feat:temp"
     if kind == "retype":
         return "key:" + p["key"]
+    if kind == "trace_rank":
+        return "trace:" + p["t"]
     if kind == "setup_special":
         return "key:%s:%s" % (p["sec"], p["key"])
     if kind == "extlink_dangling":
@@ -1762,7 +1912,7 @@ def independent(c, later):
                 and other[1]["sec"] == "fluorescence"):
             return False
         # a changed trace width is compared with the stored sample count
-        if c[0] == "trace_width" and (
+        if c[0] in ("trace_width", "trace_rank") and (
                 b.startswith("key:fluorescence") or b == "sec:fluorescence"
                 or b.startswith("feat:fl")):
             return False
@@ -1829,6 +1979,9 @@ def evaluate(cases, scratch, procs=None):
     return [r for rs in out for r in rs]
 
 
+QUICK_FLOOR = 60
+
+
 def run(run):
     import time
     cases = load_corpus()
@@ -1836,7 +1989,7 @@ def run(run):
     t0 = time.time()
     records = evaluate(cases, run.scratch) if cases else []
     # quick tier: batches of generated cases (always the same sequence for a
-    # seed) until 22 s are used, between 30 and 260 cases; thorough: 1000
+    # seed) until 22 s are used but never fewer than QUICK_FLOOR (60), at most 260 cases; thorough: 1000
     total, k = 0, 0
     target = 1000 if run.thorough else 260
     while total < target:
@@ -1846,10 +1999,19 @@ def run(run):
             k += 1
         records += evaluate(batch, run.scratch)
         total += len(batch)
-        if not run.thorough and total >= 30 and time.time() - t0 > 22:
+        if not run.thorough and total >= QUICK_FLOOR and \
+                time.time() - t0 > 22:
             break
     t1 = time.time()
     feed(run, records)
+    # no silent shrinking: the floor of generated cases and every write path
+    # must have been reached, else the run reports a coverage shortfall
+    missing = [k for k in ("writer", "append", "export", "compress", "repack",
+                           "condense", "split", "join")
+               if run.dist.get("path:" + k, 0) < (10 if run.thorough else 2)]
+    if total < QUICK_FLOOR or missing:
+        run.broken.append(("coverage(C13)", "coverage shortfall: %d generated "
+                           "cases, thin write paths %s" % (total, missing)))
     run.extra["timing_s"] = dict(files_and_checker=round(t1 - t0, 1),
                                  model=round(time.time() - t1, 1))
 
@@ -1862,25 +2024,32 @@ def feed(run, records):
         kind = r["kind"]
         run.count("record:" + kind)
         if kind == "build-error":
-            # a write path that fails produces no file: not this property
-            # (C08/C09/C10); counted and noted
+            # a write path of dclab failed on a generated (valid) recipe:
+            # no file to check - the run fails closed
             run.record_case(r["case"], False)
-            key = "build-error:%s:%s" % (r["case"]["path"],
-                                         r["error"].split(":")[0])
-            run.count(key)
-            if len(run.notes) < 5:
-                run.notes.append("write path failed (no file to check): %s "
-                                 "%s" % (r["case"]["path"], r["error"][:200]))
-            if r["case"]["path"] in ("writer", "compress", "repack"):
-                run.oracle_failure(r["case"], "dclab write path %s failed: "
-                                   "%s" % (r["case"]["path"], r["error"]),
-                                   None)
+            run.count("build-error:%s:%s" % (r["case"]["path"],
+                                             r["error"].split(":")[0]))
+            run.oracle_failure(dict(r["case"], fail_tag="build"),
+                               "dclab write path %s failed on a generated "
+                               "recipe: %s" % (r["case"]["path"], r["error"]),
+                               None)
+            continue
+        if kind == "outside":
+            run.record_case(r["case"], False, sample=False)
+            run.count("outside-model:%s:exit=%d" % (
+                r["what"].split(" at ")[0][:40], r["exit"]))
             continue
         if kind == "harness-error":
             run.broken.append(("harness(C13)", r["error"] + " | " + r["tb"]))
             continue
         if kind == "copy-skipped":
             run.count("copy-skipped:%s:%s" % (r["tool"], r["error"]))
+            if not r.get("tolerated"):
+                run.oracle_failure(
+                    dict(r["case"], fail_tag="copy-raises"),
+                    "dclab-%s raises %s on a file it should be able to copy "
+                    "(no dangling link, regular image and trace ranks)" %
+                    (r["tool"], r["error"]), None)
             continue
         for f in r.get("fails", []):
             run.oracle_failure(dict(r["case"], fail_tag=f.get("tag")),
@@ -1920,13 +2089,37 @@ def feed(run, records):
     for case, w in writers:
         ties.append((case, dict(fn="run_rectify_flat", what="rectify_metadata",
                                 arg=w["abs"], impl=w["impl"])))
+        # the hypothesis of C13_writer_output_clean holds for what the
+        # generator hands to the writer
+        ties.append((case, dict(fn="run_hyp_writer_flat",
+                                what="hyp:complete_input",
+                                arg="(%s, %d)" % (w["abs"], w["n"]),
+                                impl=[[[1]]])))
+    for case, t in list(ties):
+        if t["fn"] == "run_derive_flat":
+            # guards of C13_derived_output_clean_partial: every added feature
+            # is extra_ok; keeps_channels unless a fluorescence channel was
+            # left out on purpose (the known finding)
+            kept = case.get("kept_names")
+            kc = 1 if kept is None else int(all(
+                "fl%d_max" % i in kept for i in case["recipe"]["fl"]))
+            ties.append((case, dict(fn="run_hyp_derive_flat",
+                                    what="hyp:derive-guards", arg=t["arg"],
+                                    impl=[[[kc], [1]]])))
     for fn in sorted(set(t[1]["fn"] for t in ties)):
         sel = [t for t in ties if t[1]["fn"] == fn]
-        out = common.coq_map(run.scratch, "c13" + fn[4:8], HEADER, fn,
+        out = common.coq_map(run.scratch, "c13" + fn[4:-5], HEADER, fn,
                              [t[1]["arg"] for t in sel], shard=60)
         for (case, t), m in zip(sel, out):
             run.corr_checked += 1
             run.count("tie:" + t["what"])
+            if t["what"].startswith("hyp:"):
+                if m != t["impl"]:
+                    run.mismatch(dict(case, what=t["what"]), m, t["impl"],
+                                 what=t["what"])
+                elif t["what"] == "hyp:derive-guards" and m[0][0] == [0]:
+                    run.count("hyp:keeps_channels=false")
+                continue
             if norm_flat(m) != norm_flat(t["impl"]):
                 run.mismatch(dict(case, what=t["what"]), m, t["impl"],
                              what=t["what"])
